@@ -118,7 +118,7 @@ def run(ctx):
     except TC.Refuse as e:
         ctx.obligation("translate_cfg", False, f"translator refused: {e}")
         tr_ok = False
-    ok, out = ctx.build(["proofs/NormProofs.vo", "proofs/PrefixChart.vo", "proofs/GenCfgBridge.vo"]) if tr_ok else (False, "translator")
+    ok, out = ctx.build(["proofs/NormProofs.vo", "proofs/PrefixChart.vo", "proofs/GenCfgBridge.vo", "proofs/LnormStringsProofs.vo"]) if tr_ok else (False, "translator")
     if ok:
         ctx.prove("props/C20.v")
     else:
